@@ -150,16 +150,29 @@ class Renderer:
     def common_edits(self, s, lo, hi, subs, label):
         """edits for sub-directives shared by fn/block: loop, before, after, subst, dropstmt + built-in R1."""
         edits = []
-        loops = None
+        loops_box = [None]
         for sd in subs:
+            try:
+                self._apply_sub(s, lo, hi, sd, label, edits, loops_box)
+            except ExtractError as e:
+                # a hint that cannot be placed any more (the code around it changed) is dropped, never fatal:
+                # the contract itself is still checked; a failure of that function is then reported as undecided
+                self.meta.setdefault('lost_hints', []).append({'fn': label, 'directive': '%s %s' % (sd['kind'], sd['arg'][:60]), 'reason': str(e)})
+        self._builtin_edits(s, lo, hi, label, edits)
+        return edits
+
+    def _apply_sub(self, s, lo, hi, sd, label, edits, loops_box):
+        if True:
             k, arg, content = sd['kind'], sd['arg'], sd['content']
             org = ('splice', label, sd['line'])
+            loops = loops_box[0]
             if k == 'loop':
                 mm = re.fullmatch(r'(\d+)(?:\s+binder\s+(\w+))?', arg.strip())
                 if not mm:
                     raise ExtractError('bad loop directive: %r' % arg)
                 if loops is None:
                     loops = s.loops(lo, hi)
+                    loops_box[0] = loops
                 n = int(mm.group(1))
                 if n < 1 or n > len(loops):
                     raise ExtractError('%s: loop %d not found (%d loops)' % (label, n, len(loops)))
@@ -277,6 +290,7 @@ class Renderer:
                     edits.append(Edit(h, e, '', org))
                     self.meta['dropped'].append('%s:%d %s' % (s.path, s.line_of(h), ' '.join(s.text[h:e].split())[:120]))
                 self.rule('R1', '%s: dropped statement(s) starting %r (%d×)' % (label, pref, len(hits)))
+    def _builtin_edits(self, s, lo, hi, label, edits):
         # built-in R1: log macros -> ()
         for mm in LOG_RE.finditer(s.m[lo:hi]):
             a = lo + mm.start()
